@@ -283,6 +283,16 @@ pub fn gen_rest(r: &mut Rng, ncols: usize) -> String {
         };
         cols.push(w);
     }
+    // an empty column (also as the first one: the rest then starts with a tab) and a leading blank are ordinary
+    // tab-separated content; the last column stays non-blank because trailing white space is outside what the
+    // text parsers promise to keep
+    for i in 0..ncols.saturating_sub(1) {
+        match r.below(14) {
+            0 => cols[i] = String::new(),
+            1 => cols[i] = format!(" {}", cols[i]),
+            _ => {}
+        }
+    }
     cols.join("\t")
 }
 
